@@ -1872,6 +1872,8 @@ class SymEx:
             if other[0] in ('lambda', 'fn', 'nt', 'dict', 'list', 'tuple', 'set', 'str', 'num', 'new', 'comp', 'localfn', 'fmt', 'rat', 'cmp', 'not', 'and', 'or') or \
                     (other[0] == 'const' and other[1] in ('True', 'False')):
                 return FALSE if o in ('is', '==') else TRUE          # a function, a literal or a fresh object is not None
+            if other[0] == 'call' and other[1][0] == 'ext' and (other[1][1] in _LIB_CLASSES or other[1][1].split('.')[-1][:1].isupper()) and '.' in other[1][1]:
+                return FALSE if o in ('is', '==') else TRUE          # what a library class constructs (datetime.time(0, 0), pd.Timedelta(...)) is an object
             if other[0] == 'call' and other[1] == ('ext', 'GET') and len(other[2]) == 2:
                 t = ('cmp', 'in', other[2][1], other[2][0])
                 return mk_not(t) if o in ('is', '==') else t
@@ -3438,6 +3440,10 @@ def _concat(a, b):
     if not aa and not ab:
         return ('str', (ta + tb).replace('%%', '%'))
     return _fold_fmt(('fmt', ('str', ta + tb), ('tuple', tuple(aa) + tuple(ab))))
+
+
+_LIB_CLASSES = {'datetime.time', 'datetime.date', 'datetime.datetime', 'datetime.timedelta', 'collections.deque', 'collections.defaultdict', 'queue.Queue',
+                'functools.partial', 'itertools.count', 'itertools.chain', 'itertools.repeat'}
 
 
 def _fold_fmt(t):
